@@ -18,16 +18,17 @@ its value) and `…_wrong_type` (a wrong type is **not an error**: it silently y
 cases `fontMatrix_invalid`, `encoding_invalid`.
 
 ## (b) lenIV
-`lenIV_default`, `lenIV_present`, `lenIV_not_integer`; `lenIV_no_allocation`; `lenIV_negative_plain`
+`lenIV_default`, `lenIV_present`, `lenIV_not_integer`; `lenIV_no_allocation`; `lenIV_usable_plain` (an entry that
+is decoded at a `lenIV ≥ 0` always has its `lenIV` lead bytes); `lenIV_negative_plain`
 (uses `Cipher.deobf_negative`) and `lenIV_negative_font`: a negative `lenIV` is **not** an error; every glyph
 of the font silently becomes the empty glyph of width 0.
 
 ## (c) seac
 `seac_composed`, `seac_fields`, `seac_base_unchanged`, `seac_independent`, `seac_self_accent`,
-`seac_unresolved`: the composite is *replaced* by the base's outline followed by the accent's outline moved by
-`(adx, ady)` (DESIGN.md 10.1: `asb` and the composite's own side bearing do not enter), with the base's stems and
-the **base's width** (the composite's own `hsbw` width is discarded); the codes are looked up in the font's own
-`Encoding`.
+`seac_unresolved`, `seac_standard_codes`: the composite gets the base's outline followed by the accent's outline
+moved by `(adx, ady)` (DESIGN.md 10.1: `asb` and the composite's own side bearing do not enter) and the base's
+stems; it **keeps the width its own charstring declares**; the two codes are looked up in the **standard
+encoding**, whatever `Encoding` the font has (also when it has none).
 
 ## (d) the glyph set
 `glyph_names`, `glyph_names_sorted`, `glyphs_decoded`, `bad_charstring_fails`, `notdef_added`.
@@ -41,6 +42,8 @@ open PsVerif.Model.T1Write (Bytes nameLe Matrix PrivateDict FontInfo)
 open PsVerif.Model.T1Decode (Glyph Seac DErr decodeCharString)
 set_option linter.unusedVariables false
 set_option linter.unusedSimpArgs false
+
+def str (s : String) : Bytes := s.toList.map (fun c => UInt8.ofNat c.toNat)
 
 /-! ## (a) entries and defaults -/
 
@@ -401,6 +404,13 @@ theorem lenIV_too_long_plain (ob : Bytes) (n : Int) (h : (ob.length : Int) < n) 
 theorem lenIV_plain (ob : Bytes) (n : Int) (h0 : 0 ≤ n) (h1 : n ≤ ob.length) :
     plainOf ob n = toNats ((Cipher.decrypt Cipher.charstringR ob).drop n.toNat) := plainOf_ok ob n h0 h1
 
+/-- an entry that the loop decodes at a `lenIV ≥ 0` is at least `lenIV` bytes long, so its plain text is the
+decrypted text without the `lenIV` lead bytes (never the `nil` of a short charstring) -/
+theorem lenIV_usable_plain (lenIV : Int) (es : List (Bytes × Option Bytes)) (n ob : Bytes) (h0 : 0 ≤ lenIV)
+    (h : (n, ob) ∈ usableEntries lenIV es) :
+    plainOf ob lenIV = toNats ((Cipher.decrypt Cipher.charstringR ob).drop lenIV.toNat) :=
+  plainOf_ok ob lenIV h0 ((mem_usableEntries lenIV es n ob).mp h).2
+
 /-- the empty glyph: no outline, no stems, width 0 -/
 def emptyGlyph : Glyph := {}
 
@@ -414,7 +424,7 @@ theorem lenIV_negative_font {vm : VM} {dsc : List (String × String)} {f : Font}
   rw [hp] at e2
   cases e2
   obtain ⟨_, k2, k3, _⟩ := decodeAll_ok _ _ _ gs ss e5
-  obtain ⟨n1, n2, _⟩ := glyphsOf_negative (subrsOf vm pd (lenIVOf pd)) (lenIVOf pd) hn (usableEntries (csEntries vm cs))
+  obtain ⟨n1, n2, _⟩ := glyphsOf_negative (subrsOf vm pd (lenIVOf pd)) (lenIVOf pd) hn (usableEntries (lenIVOf pd) (csEntries vm cs))
   rw [← k2] at n1
   rw [← k3] at n2
   subst n2
@@ -439,11 +449,11 @@ theorem lenIV_negative_font {vm : VM} {dsc : List (String × String)} {f : Font}
 
 /-! ## (c) composites -/
 
-/-- what a composite is replaced by -/
-theorem seac_fields (base : Glyph) (acc : List T1Encode.Cmd) (s : Seac) :
-    (composite base acc s).cmds = base.cmds ++ acc.map (translate s.dx s.dy) ∧
-    (composite base acc s).hstem = base.hstem ∧ (composite base acc s).vstem = base.vstem ∧
-    (composite base acc s).widthX = base.widthX ∧ (composite base acc s).widthY = base.widthY :=
+/-- what a composite becomes: outline and stems from the base and the accent, widths its own -/
+theorem seac_fields (own base : Glyph) (acc : List T1Encode.Cmd) (s : Seac) :
+    (composite own base acc s).cmds = base.cmds ++ acc.map (translate s.dx s.dy) ∧
+    (composite own base acc s).hstem = base.hstem ∧ (composite own base acc s).vstem = base.vstem ∧
+    (composite own base acc s).widthX = own.widthX ∧ (composite own base acc s).widthY = own.widthY :=
   ⟨rfl, rfl, rfl, rfl, rfl⟩
 
 /-- the offsets recorded for `asb adx ady bchar achar seac` are `(adx, ady)`: `asb` is not used -/
@@ -457,24 +467,34 @@ theorem seac_offsets (d : T1Decode.DState) (asb adx ady : Rat) (b a : Int) (n : 
     simp [T1Decode.getInt, Rat.num_intCast, Rat.den_intCast, ha.1, ha.2]
   simp [T1Decode.execOp, hs, T1Decode.getD, gb, ga]
 
-/-- **composition**: a composite (recorded once) whose two codes lie in the encoding and name decoded glyphs that are
-not composites themselves ends up as: the base's outline, then the accent's outline moved by `(adx, ady)`; the
-base's stems; the base's width.  This holds whatever other composites the font has — on the same base, on the same
-accent, before or after in name order. -/
+/-- the codes of `seac` are codes of the standard encoding: the table is `psenc.StandardEncoding` (256 names), and
+neither `codesOK` nor `codeName` depends on the font -/
+theorem seac_standard_codes : stdEnc.length = 256 ∧ codeName 101 = str "e" ∧ codeName 194 = str "acute" ∧
+    codeName 193 = str "grave" ∧ codeName 0 = notdef ∧
+    (∀ s : Seac, codesOK s = true ↔ (0 ≤ s.base ∧ s.base ≤ 255 ∧ 0 ≤ s.accent ∧ s.accent ≤ 255)) := by
+  refine ⟨by decide +kernel, by decide +kernel, by decide +kernel, by decide +kernel, by decide +kernel, ?_⟩
+  intro s
+  simp [codesOK]
+
+/-- **composition**: a composite (recorded once) whose two codes are in `0 … 255` and name, in the standard
+encoding, decoded glyphs that are not composites themselves ends up with: the base's outline, then the accent's
+outline moved by `(adx, ady)`; the base's stems; the width **of its own charstring** (`own` is the composite as
+decoded).  This holds whatever `Encoding` the font has and whatever other composites it has — on the same base, on
+the same accent, before or after in name order. -/
 theorem seac_composed {vm : VM} {dsc : List (String × String)} {f : Font} {enc : List Bytes}
-    {gs : List (Bytes × Glyph)} {ss pre post : List SeacInfo} {si : SeacInfo} {base accent : Glyph}
+    {gs : List (Bytes × Glyph)} {ss pre post : List SeacInfo} {si : SeacInfo} {own base accent : Glyph}
     (h : extract vm dsc = .ok f) (hs : stageOf vm = some (enc, gs, ss)) (hss : ss = pre ++ si :: post)
-    (hc : Composable enc gs si base accent)
+    (hc : Composable gs si own base accent)
     (hpre : ∀ s ∈ pre, s.name ≠ si.name) (hpost : ∀ s ∈ post, s.name ≠ si.name)
-    (hb : ∀ s ∈ ss, s.name ≠ codeName enc si.seac.base) (ha : ∀ s ∈ ss, s.name ≠ codeName enc si.seac.accent) :
-    lookupG f.glyphs si.name = some (composite base accent.cmds si.seac) := by
+    (hb : ∀ s ∈ ss, s.name ≠ codeName si.seac.base) (ha : ∀ s ∈ ss, s.name ≠ codeName si.seac.accent) :
+    lookupG f.glyphs si.name = some (composite own base accent.cmds si.seac) := by
   obtain ⟨enc', gs', ss', gs1, h1, h2, h3, h4⟩ := extract_ok_stage h
   rw [hs] at h1
   simp only [Option.some.injEq, Prod.mk.injEq] at h1
   obtain ⟨rfl, rfl, rfl⟩ := h1
   subst hss
-  have hself : codeName enc si.seac.accent ≠ si.name := fun e => ha si (by simp) e.symm
-  have := resolveSeacs_composite enc pre post si gs gs1 base accent h2 hc hpre hpost
+  have hself : codeName si.seac.accent ≠ si.name := fun e => ha si (by simp) e.symm
+  have := resolveSeacs_composite pre post si gs gs1 own base accent h2 hc hpre hpost
     (fun s hs => hb s (by simp [hs])) (fun s hs => ha s (by simp [hs])) hself
   rw [h3]
   exact lookupG_addNotdef_of_some _ _ _ this
@@ -491,64 +511,63 @@ theorem seac_base_unchanged {vm : VM} {dsc : List (String × String)} {f : Font}
   obtain ⟨rfl, rfl, rfl⟩ := h1
   rw [h3]
   apply lookupG_addNotdef_of_some
-  rw [resolveSeacs_unchanged enc ss gs gs1 n h2 hn]
+  rw [resolveSeacs_unchanged ss gs gs1 n h2 hn]
   exact hg
 
-/-- **independence**: two composites on the same base both carry the base's decoded outline as a prefix; neither
-sees the other's accent -/
+/-- **independence**: two composites on the same base both carry the base's decoded outline as a prefix and their
+own widths; neither sees the other's accent -/
 theorem seac_independent {vm : VM} {dsc : List (String × String)} {f : Font} {enc : List Bytes}
-    {gs : List (Bytes × Glyph)} {ss p1 q1 p2 q2 : List SeacInfo} {s1 s2 : SeacInfo} {base a1 a2 : Glyph}
+    {gs : List (Bytes × Glyph)} {ss p1 q1 p2 q2 : List SeacInfo} {s1 s2 : SeacInfo} {o1 o2 base a1 a2 : Glyph}
     (h : extract vm dsc = .ok f) (hs : stageOf vm = some (enc, gs, ss))
     (e1 : ss = p1 ++ s1 :: q1) (e2 : ss = p2 ++ s2 :: q2)
-    (c1 : Composable enc gs s1 base a1) (c2 : Composable enc gs s2 base a2)
+    (c1 : Composable gs s1 o1 base a1) (c2 : Composable gs s2 o2 base a2)
     (u1 : (∀ s ∈ p1, s.name ≠ s1.name) ∧ (∀ s ∈ q1, s.name ≠ s1.name))
     (u2 : (∀ s ∈ p2, s.name ≠ s2.name) ∧ (∀ s ∈ q2, s.name ≠ s2.name))
-    (b1 : ∀ s ∈ ss, s.name ≠ codeName enc s1.seac.base) (b1' : ∀ s ∈ ss, s.name ≠ codeName enc s1.seac.accent)
-    (b2 : ∀ s ∈ ss, s.name ≠ codeName enc s2.seac.base) (b2' : ∀ s ∈ ss, s.name ≠ codeName enc s2.seac.accent) :
-    (∃ g1, lookupG f.glyphs s1.name = some g1 ∧ g1.cmds = base.cmds ++ a1.cmds.map (translate s1.seac.dx s1.seac.dy)) ∧
-    (∃ g2, lookupG f.glyphs s2.name = some g2 ∧ g2.cmds = base.cmds ++ a2.cmds.map (translate s2.seac.dx s2.seac.dy)) :=
-  ⟨⟨_, seac_composed h hs e1 c1 u1.1 u1.2 b1 b1', rfl⟩, ⟨_, seac_composed h hs e2 c2 u2.1 u2.2 b2 b2', rfl⟩⟩
+    (b1 : ∀ s ∈ ss, s.name ≠ codeName s1.seac.base) (b1' : ∀ s ∈ ss, s.name ≠ codeName s1.seac.accent)
+    (b2 : ∀ s ∈ ss, s.name ≠ codeName s2.seac.base) (b2' : ∀ s ∈ ss, s.name ≠ codeName s2.seac.accent) :
+    (∃ g1, lookupG f.glyphs s1.name = some g1 ∧ g1.widthX = o1.widthX ∧
+      g1.cmds = base.cmds ++ a1.cmds.map (translate s1.seac.dx s1.seac.dy)) ∧
+    (∃ g2, lookupG f.glyphs s2.name = some g2 ∧ g2.widthX = o2.widthX ∧
+      g2.cmds = base.cmds ++ a2.cmds.map (translate s2.seac.dx s2.seac.dy)) :=
+  ⟨⟨_, seac_composed h hs e1 c1 u1.1 u1.2 b1 b1', rfl, rfl⟩, ⟨_, seac_composed h hs e2 c2 u2.1 u2.2 b2 b2', rfl, rfl⟩⟩
 
-/-- the accent is the composite itself (its own code as `achar`): the loop reads the outline it has just copied
-from the base, so the result is the base's outline twice, the second copy moved -/
-theorem seac_self_accent (enc : List Bytes) (gs : List (Bytes × Glyph)) (si : SeacInfo) (base accent : Glyph)
-    (hc : Composable enc gs si base accent) (ha : codeName enc si.seac.accent = si.name) :
-    resolveOne enc gs si = some (setG gs si.name (composite base base.cmds si.seac)) :=
-  resolveOne_composite_self enc gs si base accent hc ha
+/-- the accent is the composite itself (its own standard code as `achar`): the loop reads the outline it has just
+copied from the base, so the result is the base's outline twice, the second copy moved -/
+theorem seac_self_accent (gs : List (Bytes × Glyph)) (si : SeacInfo) (own base accent : Glyph)
+    (hc : Composable gs si own base accent) (ha : codeName si.seac.accent = si.name) :
+    resolveOne gs si = some (setG gs si.name (composite own base base.cmds si.seac)) :=
+  resolveOne_composite_self gs si own base accent hc ha
 
-/-- a composite that cannot be composed — a code outside `0 … len(Encoding)-1` (always, when there is no
-encoding), or a code naming no glyph — is **not an error**: the glyph stays as decoded (no outline) -/
-theorem seac_unresolved (enc : List Bytes) (gs : List (Bytes × Glyph)) (si : SeacInfo)
-    (h : codesOK enc si.seac = false ∨ lookupG gs (codeName enc si.seac.base) = none ∨
-      lookupG gs (codeName enc si.seac.accent) = none) : resolveOne enc gs si = some gs :=
-  resolveOne_skip enc gs si h
-
-theorem codesOK_no_encoding (s : Seac) : codesOK [] s = false := by
-  simp [codesOK]
+/-- a composite that cannot be composed — a code outside `0 … 255`, or a code whose standard name is no glyph of
+the font — is **not an error**: the glyph stays as decoded (its own width, no outline) -/
+theorem seac_unresolved (gs : List (Bytes × Glyph)) (si : SeacInfo)
+    (h : codesOK si.seac = false ∨ lookupG gs (codeName si.seac.base) = none ∨
+      lookupG gs (codeName si.seac.accent) = none) : resolveOne gs si = some gs :=
+  resolveOne_skip gs si h
 
 /-! ## (d) the glyph set -/
 
-/-- **the glyph set**: the names of the result are `.notdef` and the keys of CharStrings whose value is a string of
-at least 4 bytes (other entries are silently skipped), and the list is sorted by name -/
+/-- **the glyph set**: the names of the result are `.notdef` and the keys of CharStrings whose value is a string
+that is not shorter than `lenIV` (for a negative `lenIV`: every string); other entries are silently skipped -/
 theorem glyph_names {vm : VM} {dsc : List (String × String)} {f : Font} (h : extract vm dsc = .ok f) :
-    ∃ cs, charStringsOf vm = some cs ∧
+    ∃ pd cs, privateOf vm = some pd ∧ charStringsOf vm = some cs ∧
       ∀ n, n ∈ names f.glyphs ↔
-        n = notdef ∨ ∃ k v ob, (k, v) ∈ cs ∧ nameBytes k = n ∧ csValue vm v = some ob ∧ 4 ≤ ob.length := by
+        n = notdef ∨ ∃ k v ob, (k, v) ∈ cs ∧ nameBytes k = n ∧ csValue vm v = some ob ∧ lenIVOf pd ≤ ob.length := by
   obtain ⟨enc, gs, ss, gs1, h1, h2, h3, h4⟩ := extract_ok_stage h
   obtain ⟨fd, pd, cs, e1, e2, e3, e4, e5⟩ := stageOf_some h1
   obtain ⟨_, _, _, k4⟩ := decodeAll_ok _ _ _ gs ss e5
-  refine ⟨cs, e3, ?_⟩
+  refine ⟨pd, cs, e2, e3, ?_⟩
   intro n
-  rw [h3, mem_names_addNotdef, resolveSeacs_names enc ss gs gs1 h2, k4]
+  rw [h3, mem_names_addNotdef, resolveSeacs_names ss gs gs1 h2, k4]
   apply or_congr Iff.rfl
   simp only [List.mem_map]
   constructor
   · rintro ⟨⟨m, ob⟩, hm, rfl⟩
-    obtain ⟨q1, q2⟩ := (mem_usableEntries _ m ob).mp hm
+    obtain ⟨q1, q2⟩ := (mem_usableEntries _ _ m ob).mp hm
     obtain ⟨k, o, r1, r2, r3⟩ := (mem_csEntries vm cs m (some ob)).mp q1
     exact ⟨k, o, ob, r1, r2, r3, q2⟩
   · rintro ⟨k, o, ob, r1, r2, r3, q2⟩
-    exact ⟨(n, ob), (mem_usableEntries _ n ob).mpr ⟨(mem_csEntries vm cs n (some ob)).mpr ⟨k, o, r1, r2, r3⟩, q2⟩, rfl⟩
+    exact ⟨(n, ob), (mem_usableEntries _ _ n ob).mpr ⟨(mem_csEntries vm cs n (some ob)).mpr ⟨k, o, r1, r2, r3⟩, q2⟩, rfl⟩
 
 theorem glyph_names_sorted {vm : VM} {dsc : List (String × String)} {f : Font} (h : extract vm dsc = .ok f) :
     (names f.glyphs).Pairwise (fun a b => nameLe a b = true) := by
@@ -556,9 +575,9 @@ theorem glyph_names_sorted {vm : VM} {dsc : List (String × String)} {f : Font} 
   obtain ⟨fd, pd, cs, e1, e2, e3, e4, e5⟩ := stageOf_some h1
   obtain ⟨_, _, _, k4⟩ := decodeAll_ok _ _ _ gs ss e5
   have hs : SortedBy gs1 := by
-    have := usableEntries_sorted _ (csEntries_sorted vm cs)
+    have := usableEntries_sorted (lenIVOf pd) _ (csEntries_sorted vm cs)
     unfold SortedBy at this ⊢
-    have hn := (resolveSeacs_names enc ss gs gs1 h2).trans k4
+    have hn := (resolveSeacs_names ss gs gs1 h2).trans k4
     unfold names at hn
     rw [← List.pairwise_map (f := fun (p : Bytes × Glyph) => p.1) (R := fun a b => nameLe a b = true), hn,
       List.pairwise_map]
@@ -574,9 +593,9 @@ composites are resolved is the list of decoded charstrings, in name order -/
 theorem glyphs_decoded {vm : VM} {enc : List Bytes} {gs : List (Bytes × Glyph)} {ss : List SeacInfo}
     (hs : stageOf vm = some (enc, gs, ss)) :
     ∃ pd cs, privateOf vm = some pd ∧ charStringsOf vm = some cs ∧
-      allDecode (subrsOf vm pd (lenIVOf pd)) (lenIVOf pd) (usableEntries (csEntries vm cs)) ∧
-      gs = glyphsOf (subrsOf vm pd (lenIVOf pd)) (lenIVOf pd) (usableEntries (csEntries vm cs)) ∧
-      ss = seacsOf (subrsOf vm pd (lenIVOf pd)) (lenIVOf pd) (usableEntries (csEntries vm cs)) := by
+      allDecode (subrsOf vm pd (lenIVOf pd)) (lenIVOf pd) (usableEntries (lenIVOf pd) (csEntries vm cs)) ∧
+      gs = glyphsOf (subrsOf vm pd (lenIVOf pd)) (lenIVOf pd) (usableEntries (lenIVOf pd) (csEntries vm cs)) ∧
+      ss = seacsOf (subrsOf vm pd (lenIVOf pd)) (lenIVOf pd) (usableEntries (lenIVOf pd) (csEntries vm cs)) := by
   obtain ⟨fd, pd, cs, e1, e2, e3, e4, e5⟩ := stageOf_some hs
   obtain ⟨k1, k2, k3, _⟩ := decodeAll_ok _ _ _ gs ss e5
   exact ⟨pd, cs, e2, e3, k1, k2, k3⟩
@@ -584,7 +603,7 @@ theorem glyphs_decoded {vm : VM} {enc : List Bytes} {gs : List (Bytes × Glyph)}
 /-- **one bad charstring fails the whole read**: no partial font -/
 theorem bad_charstring_fails {vm : VM} {dsc : List (String × String)} {pd cs : List (Name × Obj)}
     (hp : privateOf vm = some pd) (hc : charStringsOf vm = some cs) (k : Name) (v : Obj) (ob : Bytes)
-    (hk : (k, v) ∈ cs) (hv : csValue vm v = some ob) (hl : 4 ≤ ob.length) (e : DErr)
+    (hk : (k, v) ∈ cs) (hv : csValue vm v = some ob) (hl : lenIVOf pd ≤ ob.length) (e : DErr)
     (he : decodeCharString (subrsOf vm pd (lenIVOf pd)) (plainOf ob (lenIVOf pd)) = .error e) :
     ∀ f, extract vm dsc ≠ .ok f := by
   intro f hf
@@ -593,13 +612,13 @@ theorem bad_charstring_fails {vm : VM} {dsc : List (String × String)} {pd cs : 
   rw [hp] at e2; cases e2
   rw [hc] at e3; cases e3
   obtain ⟨d, hd⟩ := k1 (nameBytes k, ob)
-    ((mem_usableEntries _ _ ob).mpr ⟨(mem_csEntries vm cs _ (some ob)).mpr ⟨k, v, hk, rfl, hv⟩, hl⟩)
+    ((mem_usableEntries _ _ _ ob).mpr ⟨(mem_csEntries vm cs _ (some ob)).mpr ⟨k, v, hk, rfl, hv⟩, hl⟩)
   rw [he] at hd
   cases hd
 
 /-- a missing `.notdef` is added: empty, with the width of `space` (0 when there is none) -/
 theorem notdef_added {vm : VM} {dsc : List (String × String)} {f : Font} (h : extract vm dsc = .ok f) :
-    ∃ enc gs ss gs1, stageOf vm = some (enc, gs, ss) ∧ resolveSeacs enc ss gs = some gs1 ∧
+    ∃ enc gs ss gs1, stageOf vm = some (enc, gs, ss) ∧ resolveSeacs ss gs = some gs1 ∧
       (lookupG gs notdef = none → lookupG f.glyphs notdef = some (notdefFor gs1)) ∧
       (∀ g, lookupG gs1 notdef = some g → f.glyphs = gs1) := by
   obtain ⟨enc, gs, ss, gs1, h1, h2, h3, h4⟩ := extract_ok_stage h
@@ -608,7 +627,7 @@ theorem notdef_added {vm : VM} {dsc : List (String × String)} {f : Font} (h : e
     rw [h3]
     apply lookupG_addNotdef_absent
     rw [lookupG_eq_none_iff] at hn ⊢
-    rw [resolveSeacs_names enc ss gs gs1 h2]
+    rw [resolveSeacs_names ss gs gs1 h2]
     exact hn
   · intro g hg
     rw [h3, lookupG_addNotdef_present gs1 g hg]
@@ -634,8 +653,6 @@ def ofHex : List Char → List UInt8
   | a :: b :: r => UInt8.ofNat (hexVal a * 16 + hexVal b) :: ofHex r
   | _ => []
 
-def str (s : String) : Bytes := s.toList.map (fun c => UInt8.ofNat c.toNat)
-
 /-- empty FontInfo, no FontName / FontMatrix / Encoding, empty Private, one glyph `a`, no `.notdef` -/
 def fontMinimal : List UInt8 := ofHex "25210a3132206469637420626567696e0a2f466f6e74496e666f20313220646963742064757020626567696e0a656e64206465660a2f466f6e74547970652031206465660a63757272656e746469637420656e640a647570202f5072697661746520323020646963742064757020626567696e0a2f5244207b737472696e672063757272656e7466696c6520657863682072656164737472696e6720706f707d20657865637574656f6e6c79206465660a2f4e44207b6465667d20657865637574656f6e6c79206465660a2f4e50207b7075747d20657865637574656f6e6c79206465660a3220696e646578202f43686172537472696e6773203220646963742064757020626567696e0a2f612032362052442010bf31706754cac6e70c055783ac4ead66f9af9f17500cab24c4204e440a656e640a656e640a726561646f6e6c79207075740a7075740a2f58206578636820646566696e65666f6e7420706f700a".toList
 
@@ -649,8 +666,19 @@ def fontNegLenIV : List UInt8 := ofHex "252150532d41646f6265466f6e742d312e303a20
 /-- all Private entries present -/
 def fontPrivate : List UInt8 := ofHex "252150532d41646f6265466f6e742d312e303a2054657374203030312e3030300a25254372656174696f6e446174653a204d6f6e204a616e20322031353a30343a303520323030360a3132206469637420626567696e0a2f466f6e74496e666f20313220646963742064757020626567696e0a2f76657273696f6e20283030312e30303029206465660a2f4e6f74696365202861206e6f7469636529206465660a2f46756c6c4e616d6520285465737420466f6e7429206465660a2f46616d696c794e616d6520285465737429206465660a2f5765696768742028526567756c617229206465660a2f4974616c6963416e676c65202d31322e35206465660a2f6973466978656450697463682074727565206465660a2f556e6465726c696e65506f736974696f6e202d313030206465660a2f556e6465726c696e65546869636b6e6573732035302e35206465660a656e64206465660a2f466f6e744e616d65202f54657374206465660a2f456e636f64696e67205374616e64617264456e636f64696e67206465660a2f5061696e74547970652030206465660a2f466f6e74547970652031206465660a2f466f6e744d6174726978205b302e3030312030203020302e303031203020305d206465660a63757272656e746469637420656e640a647570202f5072697661746520323020646963742064757020626567696e0a2f5244207b737472696e672063757272656e7466696c6520657863682072656164737472696e6720706f707d20657865637574656f6e6c79206465660a2f4e44207b6465667d20657865637574656f6e6c79206465660a2f4e50207b7075747d20657865637574656f6e6c79206465660a2f426c756556616c756573205b2d3130203020353030203531305d206465660a2f4f74686572426c756573205b2d323530202d3234305d206465660a2f426c75655363616c6520302e3035206465660a2f426c756553686966742039206465660a2f426c756546757a7a2030206465660a2f5374644857205b35305d206465660a2f5374645657205b38302e355d206465660a2f466f726365426f6c642074727565206465660a3220696e646578202f43686172537472696e6773203420646963742064757020626567696e0a2f2e6e6f7464656620392052442010bf317079c757bf91204e440a2f737061636520392052442010bf317079c738be10204e440a2f612032362052442010bf31706754cac6e70c055783ac4ead66f9af9f17500cab24c4204e440a656e640a656e640a726561646f6e6c79207075740a7075740a647570202f466f6e744e616d6520676574206578636820646566696e65666f6e7420706f700a".toList
 
-/-- composites on composites: `Aa` = `Ab` + acute, `Ab` = e + acute, `Ac` = `Ab` + acute, `Ad` = e + `Ac` -/
-def fontChain : List UInt8 := ofHex "252150532d41646f6265466f6e742d312e303a2054657374203030312e3030300a25254372656174696f6e446174653a204d6f6e204a616e20322031353a30343a303520323030360a3132206469637420626567696e0a2f466f6e74496e666f20313220646963742064757020626567696e0a2f76657273696f6e20283030312e30303029206465660a2f4e6f74696365202861206e6f7469636529206465660a2f46756c6c4e616d6520285465737420466f6e7429206465660a2f46616d696c794e616d6520285465737429206465660a2f5765696768742028526567756c617229206465660a2f4974616c6963416e676c65202d31322e35206465660a2f6973466978656450697463682074727565206465660a2f556e6465726c696e65506f736974696f6e202d313030206465660a2f556e6465726c696e65546869636b6e6573732035302e35206465660a656e64206465660a2f466f6e744e616d65202f54657374206465660a2f456e636f64696e67203235362061727261790a30203120323535207b3120696e6465782065786368202f2e6e6f74646566207075747d20666f720a6475702031202f65207075740a6475702032202f6163757465207075740a647570203130202f4161207075740a647570203131202f4162207075740a647570203132202f4163207075740a647570203133202f4164207075740a726561646f6e6c79206465660a2f5061696e74547970652030206465660a2f466f6e74547970652031206465660a2f466f6e744d6174726978205b302e3030312030203020302e303031203020305d206465660a63757272656e746469637420656e640a647570202f5072697661746520323020646963742064757020626567696e0a2f5244207b737472696e672063757272656e7466696c6520657863682072656164737472696e6720706f707d20657865637574656f6e6c79206465660a2f4e44207b6465667d20657865637574656f6e6c79206465660a2f4e50207b7075747d20657865637574656f6e6c79206465660a3220696e646578202f43686172537472696e677320313020646963742064757020626567696e0a2f2e6e6f7464656620392052442010bf317079c757bf91204e440a2f737061636520392052442010bf317079c738be10204e440a2f612032362052442010bf31706754cac6e70c055783ac4ead66f9af9f17500cab24c4204e440a2f652033302052442010bf31705b07bfaf976a4df574416ab1bd6a6b94a5f70909e535290e495d204e440a2f61637574652032392052442010bf31704fa5f8005b0c91a8c6db1c0197c8724cdbf38bc2e5a561286c204e440a2f41612031342052442010bf31707ed7cef69354b331d86a204e440a2f41622031352052442010bf31707ff0db444960cb8eacbf55204e440a2f41632031352052442010bf31707c6c8734ed641c2f0879cf204e440a2f41642031352052442010bf31707d92a22aaa79e019f7ea6b204e440a656e640a656e640a726561646f6e6c79207075740a7075740a647570202f466f6e744e616d6520676574206578636820646566696e65666f6e7420706f700a".toList
+/-- composites on composites (standard codes 65…68 = A…D): `A` = `B` + acute, `B` = e + acute, `C` = `B` + acute,
+`D` = e + `C` -/
+def fontChain : List UInt8 := ofHex "252150532d41646f6265466f6e742d312e303a2054657374203030312e3030300a25254372656174696f6e446174653a204d6f6e204a616e20322031353a30343a303520323030360a3132206469637420626567696e0a2f466f6e74496e666f20313220646963742064757020626567696e0a2f76657273696f6e20283030312e30303029206465660a2f4e6f74696365202861206e6f7469636529206465660a2f46756c6c4e616d6520285465737420466f6e7429206465660a2f46616d696c794e616d6520285465737429206465660a2f5765696768742028526567756c617229206465660a2f4974616c6963416e676c65202d31322e35206465660a2f6973466978656450697463682074727565206465660a2f556e6465726c696e65506f736974696f6e202d313030206465660a2f556e6465726c696e65546869636b6e6573732035302e35206465660a656e64206465660a2f466f6e744e616d65202f54657374206465660a2f456e636f64696e67205374616e64617264456e636f64696e67206465660a2f5061696e74547970652030206465660a2f466f6e74547970652031206465660a2f466f6e744d6174726978205b302e3030312030203020302e303031203020305d206465660a63757272656e746469637420656e640a647570202f5072697661746520323020646963742064757020626567696e0a2f5244207b737472696e672063757272656e7466696c6520657863682072656164737472696e6720706f707d20657865637574656f6e6c79206465660a2f4e44207b6465667d20657865637574656f6e6c79206465660a2f4e50207b7075747d20657865637574656f6e6c79206465660a3220696e646578202f43686172537472696e677320313020646963742064757020626567696e0a2f2e6e6f7464656620392052442010bf317079c757bf91204e440a2f737061636520392052442010bf317079c738be10204e440a2f612032362052442010bf31706754cac6e70c055783ac4ead66f9af9f17500cab24c4204e440a2f652033302052442010bf31705b07bfaf976a4df574416ab1bd6a6b94a5f70909e535290e495d204e440a2f61637574652032392052442010bf31704fa5f8005b0c91a8c6db1c0197c8724cdbf38bc2e5a561286c204e440a2f412031352052442010bf31707ed7cef69354e88e9f2c77204e440a2f422031362052442010bf31707ff0db444960cbf234173df3204e440a2f432031362052442010bf31707c6c8734ed641c74df27b92a204e440a2f442031352052442010bf31707d92a22aaa79e06566de56204e440a656e640a656e640a726561646f6e6c79207075740a7075740a647570202f466f6e744e616d6520676574206578636820646566696e65666f6e7420706f700a".toList
+
+/-- a custom `Encoding` (1 e, 2 acute, 3 eacute, 4 nothing); `x1` = `… 101 194 seac` (own width 555),
+`eacute` = `… 1 2 seac`, `x2` = `… 1 4 seac` -/
+def fontCustomEnc : List UInt8 := ofHex "252150532d41646f6265466f6e742d312e303a2054657374203030312e3030300a25254372656174696f6e446174653a204d6f6e204a616e20322031353a30343a303520323030360a3132206469637420626567696e0a2f466f6e74496e666f20313220646963742064757020626567696e0a2f76657273696f6e20283030312e30303029206465660a2f4e6f74696365202861206e6f7469636529206465660a2f46756c6c4e616d6520285465737420466f6e7429206465660a2f46616d696c794e616d6520285465737429206465660a2f5765696768742028526567756c617229206465660a2f4974616c6963416e676c65202d31322e35206465660a2f6973466978656450697463682074727565206465660a2f556e6465726c696e65506f736974696f6e202d313030206465660a2f556e6465726c696e65546869636b6e6573732035302e35206465660a656e64206465660a2f466f6e744e616d65202f54657374206465660a2f456e636f64696e67203235362061727261790a30203120323535207b3120696e6465782065786368202f2e6e6f74646566207075747d20666f720a6475702031202f65207075740a6475702032202f6163757465207075740a6475702033202f656163757465207075740a6475702034202f6e6f7468696e67207075740a726561646f6e6c79206465660a2f5061696e74547970652030206465660a2f466f6e74547970652031206465660a2f466f6e744d6174726978205b302e3030312030203020302e303031203020305d206465660a63757272656e746469637420656e640a647570202f5072697661746520323020646963742064757020626567696e0a2f5244207b737472696e672063757272656e7466696c6520657863682072656164737472696e6720706f707d20657865637574656f6e6c79206465660a2f4e44207b6465667d20657865637574656f6e6c79206465660a2f4e50207b7075747d20657865637574656f6e6c79206465660a3220696e646578202f43686172537472696e677320313020646963742064757020626567696e0a2f2e6e6f7464656620392052442010bf317079c757bf91204e440a2f737061636520392052442010bf317079c738be10204e440a2f612032362052442010bf31706754cac6e70c055783ac4ead66f9af9f17500cab24c4204e440a2f652033302052442010bf31705b07bfaf976a4df574416ab1bd6a6b94a5f70909e535290e495d204e440a2f61637574652032392052442010bf31704fa5f8005b0c91a8c6db1c0197c8724cdbf38bc2e5a561286c204e440a2f6561637574652031372052442010bf31705b07bfafbac320eec4e0528f1d204e440a2f78312031382052442010bf31705b07502ccf3b082d523e1ef4f72c204e440a2f78322031352052442010bf31705b07bfafbaa6591eefcf64204e440a2f78332031352052442010bf31705b07bfafbaa65919d5cb4c204e440a656e640a656e640a726561646f6e6c79207075740a7075740a647570202f466f6e744e616d6520676574206578636820646566696e65666f6e7420706f700a".toList
+
+/-- no `Encoding` entry; `eacute` = `… 101 194 seac` with own width 555 -/
+def fontNoEnc : List UInt8 := ofHex "252150532d41646f6265466f6e742d312e303a2054657374203030312e3030300a25254372656174696f6e446174653a204d6f6e204a616e20322031353a30343a303520323030360a3132206469637420626567696e0a2f466f6e74496e666f20313220646963742064757020626567696e0a2f76657273696f6e20283030312e30303029206465660a2f4e6f74696365202861206e6f7469636529206465660a2f46756c6c4e616d6520285465737420466f6e7429206465660a2f46616d696c794e616d6520285465737429206465660a2f5765696768742028526567756c617229206465660a2f4974616c6963416e676c65202d31322e35206465660a2f6973466978656450697463682074727565206465660a2f556e6465726c696e65506f736974696f6e202d313030206465660a2f556e6465726c696e65546869636b6e6573732035302e35206465660a656e64206465660a2f466f6e744e616d65202f54657374206465660a2f5061696e74547970652030206465660a2f466f6e74547970652031206465660a2f466f6e744d6174726978205b302e3030312030203020302e303031203020305d206465660a63757272656e746469637420656e640a647570202f5072697661746520323020646963742064757020626567696e0a2f5244207b737472696e672063757272656e7466696c6520657863682072656164737472696e6720706f707d20657865637574656f6e6c79206465660a2f4e44207b6465667d20657865637574656f6e6c79206465660a2f4e50207b7075747d20657865637574656f6e6c79206465660a3220696e646578202f43686172537472696e6773203720646963742064757020626567696e0a2f2e6e6f7464656620392052442010bf317079c757bf91204e440a2f737061636520392052442010bf317079c738be10204e440a2f612032362052442010bf31706754cac6e70c055783ac4ead66f9af9f17500cab24c4204e440a2f652033302052442010bf31705b07bfaf976a4df574416ab1bd6a6b94a5f70909e535290e495d204e440a2f61637574652032392052442010bf31704fa5f8005b0c91a8c6db1c0197c8724cdbf38bc2e5a561286c204e440a2f6561637574652031382052442010bf31705b07502ccf3b082d523e1ef4f72c204e440a656e640a656e640a726561646f6e6c79207075740a7075740a647570202f466f6e744e616d6520676574206578636820646566696e65666f6e7420706f700a".toList
+
+/-- `/lenIV 1 def`; entries of 0 (`s0`, `raw0`), 1 (`raw1`), 2 (`s1` = endchar), 3 (`s2`), 4 (`s3`), 5 (`s4`) bytes -/
+def fontShort : List UInt8 := ofHex "252150532d41646f6265466f6e742d312e303a2054657374203030312e3030300a25254372656174696f6e446174653a204d6f6e204a616e20322031353a30343a303520323030360a3132206469637420626567696e0a2f466f6e74496e666f20313220646963742064757020626567696e0a2f76657273696f6e20283030312e30303029206465660a2f4e6f74696365202861206e6f7469636529206465660a2f46756c6c4e616d6520285465737420466f6e7429206465660a2f46616d696c794e616d6520285465737429206465660a2f5765696768742028526567756c617229206465660a2f4974616c6963416e676c65202d31322e35206465660a2f6973466978656450697463682074727565206465660a2f556e6465726c696e65506f736974696f6e202d313030206465660a2f556e6465726c696e65546869636b6e6573732035302e35206465660a656e64206465660a2f466f6e744e616d65202f54657374206465660a2f456e636f64696e67205374616e64617264456e636f64696e67206465660a2f5061696e74547970652030206465660a2f466f6e74547970652031206465660a2f466f6e744d6174726978205b302e3030312030203020302e303031203020305d206465660a63757272656e746469637420656e640a647570202f5072697661746520323020646963742064757020626567696e0a2f5244207b737472696e672063757272656e7466696c6520657863682072656164737472696e6720706f707d20657865637574656f6e6c79206465660a2f4e44207b6465667d20657865637574656f6e6c79206465660a2f4e50207b7075747d20657865637574656f6e6c79206465660a2f6c656e49562031206465660a3220696e646578202f43686172537472696e677320313120646963742064757020626567696e0a2f2e6e6f746465662036205244201034eb1ad9d9204e440a2f73706163652036205244201034eb7538e6204e440a2f6120323320524420102af446509fb959550d52450c339cf1ce32c52a85fb50204e440a2f7330203020524420204e440a2f733120322052442010b1204e440a2f733220332052442010b6fe204e440a2f7333203420524420102f02a1204e440a2f7334203520524420103497d5fd204e440a2f72617730203020524420204e440a2f726177312031205244204d204e440a656e640a656e640a726561646f6e6c79207075740a7075740a647570202f466f6e744e616d6520676574206578636820646566696e65666f6e7420706f700a".toList
 
 def check (input : List UInt8) (p : Font → Bool) : Bool :=
   match readFont input with
@@ -666,6 +694,9 @@ def glyphWidth (f : Font) (n : String) : Rat :=
   match lookupG f.glyphs (str n) with
   | some g => g.widthX
   | none => -1
+
+def outlineE : List T1Encode.Cmd :=
+  [.moveTo 60 0, .lineTo 160 0, .lineTo 160 100, .curveTo 161 102 164 106 169 112, .closePath]
 
 -- (a) the defaults
 #guard check fontMinimal fun f =>
@@ -683,19 +714,33 @@ def glyphWidth (f : Font) (n : String) : Rat :=
 -- (b) a negative lenIV: the read succeeds and every glyph is empty
 #guard check fontNegLenIV fun f =>
   f.glyphs.map (·.1) == [str ".notdef", str "a", str "space"] && f.glyphs.all (fun p => p.2.cmds == [] && p.2.widthX == 0)
--- (c) composites: base outline, then the accent moved by (adx, ady); width of the base; the base is unchanged;
+-- (b)/(d) lenIV 1: only the entries of length 0 are skipped; a one-byte entry is an empty charstring
+#guard check fontShort fun f =>
+  f.glyphs.map (·.1) == [".notdef", "a", "raw1", "s1", "s2", "s3", "s4", "space"].map str &&
+  glyphCmds f "raw1" == [] && glyphCmds f "s3" == [.moveTo 5 0]
+-- (c) composites: base outline, then the accent moved by (adx, ady); the composite's own width; the base is unchanged;
 -- three composites on one base do not influence each other
 #guard check fontSeac fun f =>
   glyphCmds f "eacute" == glyphCmds f "e" ++ (glyphCmds f "acute").map (translate 120 200) &&
   glyphCmds f "egrave" == glyphCmds f "e" ++ (glyphCmds f "grave").map (translate (-20) 150) &&
   glyphCmds f "e.alt" == glyphCmds f "e" ++ (glyphCmds f "acute").map (translate 1 2) &&
-  glyphCmds f "e" == [.moveTo 60 0, .lineTo 160 0, .lineTo 160 100, .curveTo 161 102 164 106 169 112, .closePath] &&
-  glyphWidth f "egrave" == 444 && glyphWidth f "e" == 444 && glyphWidth f "grave" == 300
--- (c) order: `Aa` is built on the not yet resolved `Ab` (no outline), `Ac` on the resolved one
+  glyphCmds f "e" == outlineE &&
+  glyphWidth f "egrave" == 555 && glyphWidth f "eacute" == 444 && glyphWidth f "e" == 444 && glyphWidth f "grave" == 300
+-- (c) the codes are standard codes whatever the font's Encoding: `x1` (101, 194) is e + acute with its own width 555;
+-- `eacute` (codes 1, 2 = .notdef in the standard encoding) is built on `.notdef`; x2 likewise
+#guard check fontCustomEnc fun f =>
+  glyphCmds f "x1" == outlineE ++ (glyphCmds f "acute").map (translate 120 200) && glyphWidth f "x1" == 555 &&
+  glyphCmds f "eacute" == [] && glyphWidth f "eacute" == 444 && glyphCmds f "e" == outlineE
+-- (c) … and when the font has no Encoding at all
+#guard check fontNoEnc fun f =>
+  f.encoding == [] && glyphCmds f "eacute" == outlineE ++ (glyphCmds f "acute").map (translate 120 200) &&
+  glyphWidth f "eacute" == 555
+-- (c) order: `A` is built on the not yet resolved `B` (no outline), `C` on the resolved one; each keeps its own width
 #guard check fontChain fun f =>
-  glyphCmds f "Aa" == (glyphCmds f "acute").map (translate 10 10) &&
-  glyphCmds f "Ab" == glyphCmds f "e" ++ (glyphCmds f "acute").map (translate 20 20) &&
-  glyphCmds f "Ac" == glyphCmds f "Ab" ++ (glyphCmds f "acute").map (translate 30 30)
+  glyphCmds f "A" == (glyphCmds f "acute").map (translate 10 10) &&
+  glyphCmds f "B" == glyphCmds f "e" ++ (glyphCmds f "acute").map (translate 20 20) &&
+  glyphCmds f "C" == glyphCmds f "B" ++ (glyphCmds f "acute").map (translate 30 30) &&
+  glyphWidth f "A" == 100 && glyphWidth f "B" == 200 && glyphWidth f "C" == 300 && glyphWidth f "D" == 400
 -- (d) names sorted
 #guard check fontSeac fun f =>
   f.glyphs.map (·.1) == [".notdef", "a", "acute", "e", "e.alt", "eacute", "egrave", "grave", "space"].map str
@@ -766,15 +811,16 @@ end PsVerif.Props.C06Read
 #print axioms PsVerif.Props.C06Read.lenIV_negative_plain
 #print axioms PsVerif.Props.C06Read.lenIV_too_long_plain
 #print axioms PsVerif.Props.C06Read.lenIV_plain
+#print axioms PsVerif.Props.C06Read.lenIV_usable_plain
 #print axioms PsVerif.Props.C06Read.lenIV_negative_font
 #print axioms PsVerif.Props.C06Read.seac_fields
 #print axioms PsVerif.Props.C06Read.seac_offsets
+#print axioms PsVerif.Props.C06Read.seac_standard_codes
 #print axioms PsVerif.Props.C06Read.seac_composed
 #print axioms PsVerif.Props.C06Read.seac_base_unchanged
 #print axioms PsVerif.Props.C06Read.seac_independent
 #print axioms PsVerif.Props.C06Read.seac_self_accent
 #print axioms PsVerif.Props.C06Read.seac_unresolved
-#print axioms PsVerif.Props.C06Read.codesOK_no_encoding
 #print axioms PsVerif.Props.C06Read.glyph_names
 #print axioms PsVerif.Props.C06Read.glyph_names_sorted
 #print axioms PsVerif.Props.C06Read.glyphs_decoded
